@@ -38,7 +38,7 @@ type ctx struct {
 }
 
 func main() {
-	mode := flag.String("mode", "sqlite", "sqlite|mysql|postgres")
+	mode := flag.String("mode", "sqlite", "sqlite|mysql|postgres|postgres-ns")
 	tier := flag.String("tier", "quick", "quick|thorough")
 	outDir := flag.String("out", "", "output directory")
 	flag.Parse()
@@ -47,13 +47,21 @@ func main() {
 		os.Exit(2)
 	}
 	c := &ctx{w: out.New(*outDir), p: newProfile(*mode), r: rng.FromEnv(0xC02)}
+	if *mode == "postgres-ns" {
+		// the connection-backed PostgreSQL differ with a schema scope (conn.schema = "public")
+		c.differ, c.tie = scopedPGDiffer("public"), true
+		*mode = "postgres"
+	}
 	switch *mode {
 	case "sqlite":
 		c.differ, c.tie = sqlite.DefaultDiff, true
 	case "mysql":
 		c.differ, c.tie = mysql.DefaultDiff, true
 	case "postgres":
-		c.differ, c.tie = postgres.DefaultDiff, true
+		if c.differ == nil {
+			c.differ = postgres.DefaultDiff
+		}
+		c.tie = true
 	default:
 		fmt.Fprintln(os.Stderr, "unknown mode")
 		os.Exit(2)
